@@ -638,7 +638,7 @@ def r4(ctx):
     # ---- init hook
     f2 = ctx.func(f"{MAP}::_event_on_init")
     S2 = get_sub(ctx, f2)
-    calls = [c for c in calls_in(f2.node) if isinstance(c.func, ast.Attribute) and c.func.attr == "_set_polymorphic_identity"]
+    calls = [c for c in calls_in(f2.node) if any(is_attr_of(a, "_set_polymorphic_identity") for a in S2.ctx_alts(c.func))]
     bad = []
     if not calls:
         bad.append("the init hook never stamps the identity")
@@ -646,7 +646,8 @@ def r4(ctx):
         st_param = f2.params[0]
         if not (c.args and _name(c.args[0], st_param)):
             bad.append("the setter is not given the new instance's state")
-        for a in S2.ctx_alts(c.func.value):
+        for fa in S2.ctx_alts(c.func):
+            a = getattr_norm(fa)[0] if getattr_norm(fa) else fa
             if not (root_name(a) == st_param and is_attr_of(a, "mapper")):
                 bad.append(f"the setter of `{unparse(a)[:40]}` is used, not the one of the instance's mapper")
         for al, pol, t in guard_atoms_at(S2, S2.node_of(c)):
@@ -961,3 +962,10 @@ R.mutant("benign-r5-restructured", CTXM,
          chain(sub("            if ext_info in self._join_entities:\n                continue\n", "            joined = ext_info in self._join_entities\n            if joined:\n                continue\n"),
                sub("            for adapter in adapters:\n                new_crit = adapter.traverse(new_crit)\n            _where_criteria_to_add += (new_crit,)",
                    "            for adapter in adapters:\n                new_crit = adapter.traverse(new_crit)\n            _where_criteria_to_add = _where_criteria_to_add + (new_crit,)")), None)
+
+R.mutant("benign-r5-component-early-return", MAP,
+         sub("        if self.single and self.inherits and self.polymorphic_on is not None:\n\n            hierarchy = tuple(\n                m.polymorphic_identity\n                for m in self.self_and_descendants\n                if not m.polymorphic_abstract\n            )\n\n            return (\n                self.polymorphic_on._annotate(\n                    {\"parententity\": self, \"parentmapper\": self}\n                ),\n                hierarchy,\n            )\n        else:\n            return None\n",
+             "        if not (\n            self.single and self.inherits and self.polymorphic_on is not None\n        ):\n            return None\n        discriminator = self.polymorphic_on._annotate(\n            {\"parententity\": self, \"parentmapper\": self}\n        )\n        identities = tuple(\n            sub_mapper.polymorphic_identity\n            for sub_mapper in self.self_and_descendants\n            if not sub_mapper.polymorphic_abstract\n        )\n        return (discriminator, identities)\n"), None)
+R.mutant("benign-r4-init-hook-alias", MAP,
+         sub("        if instrumenting_mapper._set_polymorphic_identity:\n            instrumenting_mapper._set_polymorphic_identity(state)",
+             "        stamp = instrumenting_mapper._set_polymorphic_identity\n        if stamp:\n            stamp(state)"), None)
